@@ -157,3 +157,20 @@ package ipam
 //@   ensures forall i int :: 0 <= i && i < len(blkU(b)) ==> blkA(b)[blkU(b)[i]] == nil
 //@   ensures forall i int, j int :: 0 <= i && i < j && j < len(blkU(b)) ==> blkU(b)[i] != blkU(b)[j]
 //@   loop 1 invariant blkWFq(b)
+
+//@ -- a new block satisfies the invariant: every address outside the host-reserved windows is on the free list
+//@ -- once, with an empty slot; the reserved windows are allocated and not on the list
+//@ func newBlock
+//@   property C19
+//@   option safety assume
+//@   option absindex
+//@   option mathint
+//@   option stable []int, []*int, (*model.AllocationBlock).Allocations, (*model.AllocationBlock).Unallocated, (*HostReservedAttr).StartOfBlock, (*HostReservedAttr).EndOfBlock
+//@   requires rsvdAttr != nil ==> 0 <= rsvdAttr.StartOfBlock && 0 <= rsvdAttr.EndOfBlock
+//@   ensures res.AllocationBlock != nil
+//@   ensures forall i int :: 0 <= i && i < len(res.AllocationBlock.Unallocated) ==> 0 <= res.AllocationBlock.Unallocated[i] && res.AllocationBlock.Unallocated[i] < len(res.AllocationBlock.Allocations)
+//@   ensures forall i int :: 0 <= i && i < len(res.AllocationBlock.Unallocated) ==> res.AllocationBlock.Allocations[res.AllocationBlock.Unallocated[i]] == nil
+//@   ensures forall i int, j int :: 0 <= i && i < j && j < len(res.AllocationBlock.Unallocated) ==> res.AllocationBlock.Unallocated[i] != res.AllocationBlock.Unallocated[j]
+//@   loop 1 invariant 0 <= i && i <= numAddresses && len(b.Unallocated) == numAddresses && len(b.Allocations) == numAddresses && (forall k int :: 0 <= k && k < i ==> b.Unallocated[k] == k) && (forall k int :: 0 <= k && k < numAddresses ==> b.Allocations[k] == nil)
+//@   loop 2 invariant 0 <= i && i <= rsvdAttr.StartOfBlock && len(b.Allocations) == numAddresses && len(b.Unallocated) == numAddresses - rsvdAttr.StartOfBlock - rsvdAttr.EndOfBlock && (forall k int :: 0 <= k && k < len(b.Unallocated) ==> b.Unallocated[k] == k + rsvdAttr.StartOfBlock) && (forall k int :: rsvdAttr.StartOfBlock <= k && k < numAddresses ==> b.Allocations[k] == nil)
+//@   loop 3 invariant 1 <= i && i <= rsvdAttr.EndOfBlock + 1 && len(b.Allocations) == numAddresses && len(b.Unallocated) == numAddresses - rsvdAttr.StartOfBlock - rsvdAttr.EndOfBlock && (forall k int :: 0 <= k && k < len(b.Unallocated) ==> b.Unallocated[k] == k + rsvdAttr.StartOfBlock) && (forall k int :: rsvdAttr.StartOfBlock <= k && k <= numAddresses - i ==> b.Allocations[k] == nil)
